@@ -9,6 +9,7 @@ construction-time contents, every serialize yields the bytes of the first, the o
 never changes.
 """
 
+import collections.abc
 import itertools
 
 from .. import e3, loader, values
@@ -51,12 +52,30 @@ def reachable(ad, obj, cls, unit, prefix="obj"):
     return out
 
 
+_OPTPASS = bool(__import__("os").environ.get("VERIF_OPTPASS"))
+
+
+class SeqView(collections.abc.Sequence):
+    """A read-only Sequence view of a caller-owned list: a legal array argument (an iterable of elements) that is
+    neither a list nor a tuple; the caller can still change the list behind it."""
+
+    def __init__(self, lst):
+        self._lst = lst
+
+    def __getitem__(self, i):
+        return self._lst[i]
+
+    def __len__(self):
+        return len(self._lst)
+
+
 class Instance:
     """One instance under test plus the caller-side lists its arrays were built from."""
 
-    def __init__(self, ld, ad, val, deserialized):
+    def __init__(self, ld, ad, val, deserialized, container="list"):
         p = ld.program
         self.ld, self.ad, self.val = ld, ad, val
+        self.container = container
         self.sources = {}
         obj = self._build(ld.cls, p.node, val)
         if deserialized:
@@ -91,7 +110,7 @@ class Instance:
                 if ins.tag == "array" and v is not None:
                     lst = list(v)
                     self.sources[name] = (lst, tuple(v))
-                    full[name] = lst
+                    full[name] = lst if self.container == "list" else SeqView(lst)
                 else:
                     full[name] = v
             elif ins.tag == "switch":
@@ -107,7 +126,7 @@ class Instance:
 
 
 def menu(inst):
-    ops = [("serialize",)]
+    ops = [("serialize",), ("deserialize_again", "longer"), ("deserialize_again", "prefix")]
     for label, o, _, _ in inst.targets():
         for name in public_names(o):
             for how in ("same", "other", "none"):
@@ -151,6 +170,16 @@ def apply(inst, op):
             if before != inst.shared_model:
                 return f"the shared writer held {before.hex()} before this write, expected {inst.shared_model.hex()}"
             inst.shared_model += inst.first
+    elif op[0] == "deserialize_again":
+        # other instances of the same classes come and go: deserializing the class again (from the same bytes, from
+        # nothing, from a prefix) must not touch an instance handed out earlier
+        R = loader.lib("eolib.data.eo_reader").EoReader
+        data = {"same": inst.first, "empty": b"", "prefix": inst.first[: max(0, len(inst.first) - 1)], "longer": inst.first + b"\x01\x02"}[op[1]]
+        for _, o, c, _u in [("obj", inst.obj, inst.ld.cls, None)] + list(inst.targets()):
+            try:
+                c.deserialize(R(data))
+            except Exception:  # noqa: BLE001 - what the other instance becomes is not judged here
+                pass
     elif op[0] == "serialize":
         got = real_serialize(inst.ld.cls, inst.obj, False)
         if got[0] != "bytes" or got[1] != inst.first:
@@ -244,11 +273,11 @@ class _Skip(Exception):
     pass
 
 
-def run_history(ld, ad, val, deserialized, hist):
+def run_history(ld, ad, val, deserialized, hist, container="list"):
     _counter[0] += 1
     val = uniquify(ld.program.node, ad.env, val, f"q{ld.program.pid}x{_counter[0]}")
     try:
-        inst = Instance(ld, ad, val, deserialized)
+        inst = Instance(ld, ad, val, deserialized, container)
     except loader.HarnessError:
         raise
     except Exception:  # noqa: BLE001 - an instance that cannot be built / serialized is C01's concern, not C19's
@@ -293,19 +322,24 @@ class Judge:
         for val in values.enumerate_values(p.node, env, cap=96 if ctx.tier == "quick" else 256):
             if ref_serialize(env, p.node, val, False)[0] != "bytes":
                 continue
-            for deserialized in (False, True):
-                for hist in ((("mutate_source", "*", "append"), ("serialize",)),):
-                    what = run_history(ld, ad, val, deserialized, hist)
+            for deserialized, container in ((False, "list"), (True, "list"), (False, "seqview")):
+                for hist in ((("mutate_source", "*", "append"), ("serialize",)), (("deserialize_again", "empty"), ("deserialize_again", "same"), ("serialize",))):
+                    if hist[0][0] == "deserialize_again" and container != "list":
+                        continue
+                    what = run_history(ld, ad, val, deserialized, hist, container)
                     if what == "skip":
                         continue
                     ctx.counts["evaluations"] += 1
                     if what:
+                        how = ("deserialized" if deserialized else "constructed") + ("" if container == "list" else ", arrays given as a read-only Sequence view of the caller's lists")
                         ctx.violation(
                             f"mutable:{info.ident}:arrays:{what.split(':')[1][:40]}",
-                            f"{info.host} [{info.ident}] value {val!r} ({'deserialized' if deserialized else 'constructed'}): {what}",
-                            {"tier": ctx.tier, "index": info.index, "value": _enc(val), "deserialized": deserialized, "history": [list(o) for o in hist]},
+                            f"{info.host} [{info.ident}] value {val!r} ({how}): {what}",
+                            {"tier": ctx.tier, "index": info.index, "value": _enc(val), "deserialized": deserialized, "container": container, "history": [list(o) for o in hist]},
                         )
                         return
+        if _OPTPASS and info.index % 4 and not info.ident.startswith("corpus:"):
+            return  # the -OO repetition (mc/cli.py) runs the full menu on the corpus and every fourth program
         for val in values.rich_values(p.node, env, n=(3 if ctx.tier == "quick" else 4)):
             if ref_serialize(env, p.node, val, False)[0] != "bytes":
                 continue
@@ -369,7 +403,7 @@ def _replay_single(case):
     ld, info = e3.replay_program(case["tier"], int(case["index"]))
     if ld.cls is None:
         return None
-    what = run_history(ld, e3.adaptor_for(ld.program), _dec(case["value"]), bool(case["deserialized"]), [tuple(o) for o in case["history"]])
+    what = run_history(ld, e3.adaptor_for(ld.program), _dec(case["value"]), bool(case["deserialized"]), [tuple(o) for o in case["history"]], case.get("container", "list"))
     return f"[{info.ident}] {what}\n{ld.program.node.xml()}" if what and what != "skip" else None
 
 
